@@ -290,7 +290,15 @@ class DCAwareRoundRobinPolicy(LoadBalancingPolicy):
         # control connection startup/refresh
         if not self.local_dc and host.datacenter:
             if host.endpoint in self._endpoints:
+                undiscovered_dc = self.local_dc
                 self.local_dc = host.datacenter
+                # hosts whose datacenter was unknown at populate() were filed under the
+                # not yet discovered local_dc; they belong to the discovered one now
+                with self._hosts_lock:
+                    unfiled = self._dc_live_hosts.pop(undiscovered_dc, ())
+                    if unfiled:
+                        current = self._dc_live_hosts.get(self.local_dc, ())
+                        self._dc_live_hosts[self.local_dc] = current + tuple(h for h in unfiled if h not in current)
                 log.info("Using datacenter '%s' for DCAwareRoundRobinPolicy (via host '%s'); "
                          "if incorrect, please specify a local_dc to the constructor, "
                          "or limit contact points to local cluster nodes" %
